@@ -94,13 +94,13 @@ def judge_pair(ctx, A, B, tag):
 def cases(ctx):
     for n in range(1, ctx.pick(5, 6) + 1):
         yield "subsets", {"n": n, "seed": ctx.subseed("s", n)}
-    for i in range(ctx.pick(100, 4000)):
+    for i in range(ctx.pick(100, 100000)):
         yield "random_pairs", {"seed": ctx.subseed("r", i), "n": 300}
-    for i in range(ctx.pick(200, 8000)):
+    for i in range(ctx.pick(200, 200000)):
         yield "truncate", {"seed": ctx.subseed("t", i)}
-    for i in range(ctx.pick(300, 12000)):
+    for i in range(ctx.pick(300, 300000)):
         yield "history", {"seed": ctx.subseed("hi", i)}
-    for i in range(ctx.pick(300, 12000)):
+    for i in range(ctx.pick(300, 300000)):
         yield "generate", {"seed": ctx.subseed("g", i)}
 
 
